@@ -1956,14 +1956,28 @@ func (s *BgpServer) handleFSMMessage(peer *peer, e *fsmMsg) {
 				}
 			}
 			if conf.GracefulRestart.State.PeerRestarting {
-				// RFC 4724 4.2: the peer came back without the graceful restart
-				// capability (or without any address family in it), so no
-				// End-of-RIB marker is to be expected: stop retaining its stale
-				// routes now.
-				if families, _ := peer.forwardingPreservedFamilies(); len(families) == 0 {
+				// RFC 4724 4.2: once the session is re-established, the stale
+				// routes of an address family that is not included in the newly
+				// received graceful restart capability, or whose Forwarding State
+				// bit is not set in it, MUST be removed immediately - all of them
+				// when the capability is not received at all. In that last case no
+				// End-of-RIB marker is to be expected either: stop restarting.
+				families, others := peer.forwardingPreservedFamilies()
+				if len(families) == 0 {
 					peer.stopPeerRestarting()
-					s.propagateUpdate(peer, peer.adjRibIn.DropStale(peer.configuredRFlist()))
 				}
+				peer.fsm.lock.Lock()
+				if caps, ok := peer.fsm.capMap[bgp.BGP_CAP_GRACEFUL_RESTART]; ok && len(caps) > 0 {
+					if c, ok := caps[len(caps)-1].(*bgp.CapGracefulRestart); ok {
+						for _, t := range c.Tuples {
+							if f := bgp.NewFamily(t.AFI, t.SAFI); t.Flags&0x80 == 0 && slices.Contains(families, f) {
+								others = append(others, f)
+							}
+						}
+					}
+				}
+				peer.fsm.lock.Unlock()
+				s.propagateUpdate(peer, peer.adjRibIn.DropStale(others))
 			}
 			notLocalRestarting := !conf.GracefulRestart.State.LocalRestarting
 			if notLocalRestarting {
